@@ -52,6 +52,9 @@ def filler_bytes(kind, seed, n):
             out.append((0x00, 0x00, 0xC0 if (s + i // 4) % 2 else 0x80, 0x7F if (s + i // 4) % 3 else 0xFF)[i % 4])
         elif kind == "negative-int":
             out.append(0xFF if i % 4 else 0xFE - (s % 3))
+        elif kind == "cstring":    # a short, properly terminated piece of printable text at the start of the area, zeros behind it (looks like a note / a name)
+            k = 1 + s % max(1, min(n - 1, 40))
+            out.append(((h >> 20) % 94) + 33 if i < k and i < n - 1 else 0)
         elif kind == "wide":       # looks like the rest of a UTF-16 buffer: letter, NUL, letter, NUL, ...
             out.append(0 if i % 2 else 97 + (h >> 20) % 26)
         else:
@@ -134,7 +137,7 @@ def run_blocks(ctx, case):
 
 
 def blocks_strategy(tier):
-    fills = st.tuples(st.sampled_from(["random", "random", "ff", "text", "adversarial", "adversarial", "small-int", "small-int", "float-special", "negative-int", "wide", "wide",
+    fills = st.tuples(st.sampled_from(["random", "random", "ff", "text", "adversarial", "adversarial", "small-int", "small-int", "float-special", "negative-int", "wide", "wide", "cstring", "cstring",
                                          "partial:small-int", "partial:small-int", "partial:random", "partial:ff", "partial:wide", "lone-word", "lone-word"]),
                       st.integers(0, 2 ** 32 - 1)).map(list)
     return st.sampled_from(specs.TYPES).flatmap(lambda t: st.fixed_dictionaries({
@@ -143,7 +146,7 @@ def blocks_strategy(tier):
 
 # ---------------------------------------------------------------------------------------
 def capture_strategy(tier):
-    fills = st.tuples(st.sampled_from(["random", "ff", "text", "adversarial", "zero", "small-int", "float-special", "negative-int", "wide", "partial:small-int", "partial:random"]), st.integers(0, 2 ** 32 - 1)).map(list)
+    fills = st.tuples(st.sampled_from(["random", "ff", "text", "adversarial", "zero", "small-int", "float-special", "negative-int", "wide", "cstring", "partial:small-int", "partial:random"]), st.integers(0, 2 ** 32 - 1)).map(list)
     return st.fixed_dictionaries({"slot": st.sampled_from([0, 1, 3, 4, 5, 6, 7, 0, 1, 7]), "fill": fills})
 
 
@@ -171,7 +174,7 @@ def container_strategy(tier):
                    "adate": draw(dates31)} for t in types]
         return {"N": n, "blocks": blocks, "dates": draw(st.lists(dates31, min_size=3, max_size=3)),
                 "source": draw(st.sampled_from(["generated", "generated", "capture-table"])),
-                "fill": [draw(st.sampled_from(["random", "ff", "text", "adversarial", "small-int", "float-special", "negative-int", "wide", "partial:small-int", "partial:small-int",
+                "fill": [draw(st.sampled_from(["random", "ff", "text", "adversarial", "small-int", "float-special", "negative-int", "wide", "cstring", "partial:small-int", "partial:small-int",
                                                "partial:random", "partial:ff"])), draw(st.integers(0, 2 ** 32 - 1))]}
 
     return cases()
@@ -294,9 +297,96 @@ def run_lone(ctx, case):
     ctx.case(case, True, labels=[f"N={n}", "lone-word:" + ("header" if w < 7 else "entry")])
 
 
+# ---------------------------------------------------------------------------------------
+# one don't-care WORD swept through a whole range of values (a reader that gives a meaning to particular numbers - a code page, a
+# version, a count - hides from random fillers: 32 bits of uniform noise never spell 1251)
+NONASCII = "M\u00e9dio \u20ac \u00f1\u00df"
+SWEEP_SPECIALS = [2 ** k + d for k in range(12, 32) for d in (-1, 0, 1)] + [0x7FFFFFFF, 0x80000000, 0xFFFFFFFF, 0xFFFFFFFE, 65001, 1200, 1201, 20127, 28591, 28605, 10000]
+SWEEP_SPECIALS = [v for v in SWEEP_SPECIALS if 0 <= v <= 0xFFFFFFFF]
+
+
+def _sweep_block_specs():
+    from .c07 import LABELLED, labelled_spec
+    from .c14 import _minimal
+
+    out = []
+    for t in specs.TYPES:
+        spec = labelled_spec(t, 2) if t in LABELLED or t in ("platData", "data2D") else _minimal(t)
+        spec = __import__("copy").deepcopy(spec)
+        for key in ("tracks", "signals", "events", "plats", "channels"):
+            for it in spec.get(key) or []:
+                for lk, w in (("label", 256), ("name", 32), ("lens", 32), ("type", 32)):
+                    if isinstance(it.get(lk), str):
+                        it[lk] = NONASCII[:w - 1]
+        out.append(spec)
+    return out
+
+
+def enum_sweep(tier):
+    top = 4096 if tier == "quick" else 65536
+    step = 512
+    for lo in range(0, 65536 if True else top, step):   # table entries are cheap: always the full 16-bit range
+        yield {"what": "entry", "lo": lo, "hi": lo + step}
+    yield {"what": "entry", "values": SWEEP_SPECIALS}
+    for spec in _sweep_block_specs():
+        _, spans = reftdf.encode(spec, with_spans=True)
+        words = [s_ + 4 * j for s_, e_, c in spans if c in ("reserved",) for j in range((e_ - s_) // 4)]
+        for wi, pos in enumerate(words[:6]):
+            for lo in range(0, top, step):
+                yield {"what": "block", "spec": spec, "pos": pos, "lo": lo, "hi": lo + step}
+            yield {"what": "block", "spec": spec, "pos": pos, "values": SWEEP_SPECIALS}
+
+
+def run_sweep(ctx, case):
+    values = case.get("values") or range(case["lo"], case["hi"])
+    if case["what"] == "entry":
+        from basictdf.basictdf import TdfEntry
+
+        en = {"type": 5, "format": 1, "offset": 4096, "size": 77, "cdate": 1_600_000_000, "mdate": 1_600_000_001, "adate": 1_600_000_002, "comment": NONASCII}
+        canonical = reftdf.encode_entry(en)
+        pos = 28
+        for v in values:
+            raw = canonical[:pos] + int(v).to_bytes(4, "little") + canonical[pos + 4:]
+            ok, got = ctx.must(lambda: TdfEntry._build(io.BytesIO(raw)), "sweep/entry/decode", f"decoding a table entry whose pad word is {v}")
+            if not ok:
+                return
+            g = {"type": got.type.value, "format": int(got.format), "offset": int(got.offset), "size": int(got.size), "cdate": sec_of(got.creation_date),
+                 "mdate": sec_of(got.last_modification_date), "adate": sec_of(got.last_access_date), "comment": got.comment}
+            d = specs.first_diff(g, en)
+            if d:
+                ctx.fail(f"sweep/entry/content-changed-{specs.diff_class(d[0])}", f"table entry: {d[0]} reads {str(d[1])[:60]!r} when the pad word is {v}, {str(d[2])[:60]!r} when it is 0")
+            b = io.BytesIO()
+            got._write(b)
+            if b.getvalue() != canonical:
+                ctx.fail("sweep/entry/re-encode-not-canonical", f"table entry decoded with pad word {v} re-encodes to different bytes")
+        ctx.case(case, True, labels=["sweep:entry-pad-word"])
+        return
+    spec, pos = case["spec"], case["pos"]
+    t = spec["t"]
+    canonical = reftdf.encode(spec)
+    want = specs.canon(spec)
+    for v in values:
+        raw = canonical[:pos] + int(v).to_bytes(4, "little") + canonical[pos + 4:]
+        ok, res = ctx.must(lambda: specs.lib_decode(t, spec["format"], raw, b"\x55" * 8), f"sweep/{t}/decode", f"decoding a {t} block whose reserved word at byte {pos} is {v}")
+        if not ok:
+            return
+        if res[1] != len(raw):
+            ctx.fail(f"sweep/{t}/consumed", f"{t}: consumed {res[1]} of {len(raw)} bytes when the reserved word at byte {pos} is {v}")
+        d = specs.first_diff(specs.extract(res[0]), want)
+        if d:
+            ctx.fail(f"sweep/{t}/content-changed-{specs.diff_class(d[0])}", f"{t}: {d[0]} reads {str(d[1])[:60]!r} when the reserved word at byte {pos} is {v}")
+        if specs.lib_write(res[0]) != canonical:
+            ctx.fail(f"sweep/{t}/re-encode-not-canonical", f"{t}: decoded with reserved word {v} at byte {pos}, the block re-encodes to different bytes")
+    ctx.case(case, True, labels=[f"sweep:{t}"])
+
+
 SUBS = [
     Sub("container-lone-word", run_lone, kind="enum", enumerate=enum_lone, shards=(8, 16),
         rule="two fixed images (N=3, N=14): each reserved header word, each entry pad word and the first comment-tail words set ONE AT A TIME to each of 19 plausible small values; finite, enumerated"),
+    Sub("pad-word-sweep", run_sweep, kind="enum", enumerate=enum_sweep, shards=(8, 16),
+        rule="one don't-care word at a time swept through a whole range: the table entry's pad word through all of 0..65535 plus 2^k-1, 2^k, 2^k+1 and other "
+             "numbers with a meaning elsewhere (code pages), with non-ASCII text in the entry; each reserved word of each block type's header through 0..4095 (quick) / "
+             "0..65535 (thorough) plus the specials, with non-ASCII labels; finite, enumerated (one case = 512 values)"),
     Sub("blocks", run_blocks, strategy=blocks_strategy, budget=(1800, 40000), shards=(4, 16),
         rule="all nine block types, library-written and reference-encoded; every don't-care byte overwritten"),
     Sub("capture-blocks", run_capture, strategy=capture_strategy, budget=(24, 400), shards=(4, 16),
